@@ -1070,6 +1070,14 @@ class Ev:
                 return PyFunc(lambda a, k: DictV(dict(zip(v.names, v.items))), "_asdict")
             if attr == "_replace":
                 return PyFunc(lambda a, k: NamedTupV(v.cls, v.names, [k.get(n, x) for n, x in zip(v.names, v.items)]), "_replace")
+            if hasattr(v.cls, "methods"):
+                # a typing.NamedTuple class of the repository with methods / properties of its own
+                pr = self.repo.find_prop(v.cls, attr)
+                if pr and pr[1] and pr[1].get("get") is not None:
+                    return self.call_fn(FuncV(pr[1]["get"], self_val=v, cls=pr[0], mod=pr[0].mod), [], {}, node)
+                got = self.repo.find_method(v.cls, attr)
+                if got[1] is not None:
+                    return self.bind(got[1], got[0], v)
             return ("method", v, attr)
         if isinstance(v, ElemV):
             if attr in ("tag", "text", "tail", "attrib"):
@@ -1481,6 +1489,9 @@ class Ev:
         if isinstance(e, ast.Attribute):
             r = self.getattr(self.ev(e.value, env, mod), e.attr, e, mod)
             if isinstance(r, tuple) and r and r[0] == "method":
+                if self.outside_value(r[1]):
+                    # attribute of a value of an uninterpreted pure module: an uninterpreted function of that value
+                    return Ctor(".%s" % e.attr, {"of": r[1]}, kind="call")
                 raise AnalysisError("attribute .%s of %r at line %d is not modelled" % (e.attr, r[1], e.lineno))
             return r
         if isinstance(e, ast.JoinedStr):
@@ -2079,10 +2090,23 @@ class Ev:
                 return str_split(s, pattern)
         raise AnalysisError("regex operation %s at line %d is not modelled" % (op, e.lineno))
 
+    def outside_value(self, v):
+        """a value made by an uninterpreted pure module (numpy array expression, shapely geometry, ...)"""
+        while isinstance(v, Ctor) and v.name.startswith(".") and "of" in v.args:
+            v = v.args["of"]
+        return isinstance(v, Ctor) and v.name.split(".")[0] in self.pure_modules
+
     def method(self, recv, name, args, kwargs, e):
         """methods of abstract values"""
         if isinstance(recv, Frag):
             return recv
+        if self.outside_value(recv):
+            key = ".%s()" % name
+            if key in self.model_calls:
+                return self.model_calls[key]([recv] + list(args), kwargs)
+            r = Ctor(key, dict({"of": recv}, **dict({"arg%d" % i: a for i, a in enumerate(args)}, **kwargs)), kind="call")
+            self.trace.append(("call", e, r))
+            return r
         if isinstance(recv, Str):
             if name == "join":
                 items = self.iterate(args[0], e)
